@@ -413,7 +413,7 @@ def discharge_site(dis, b, bi, t, kind):
 FINITE_SOURCES = ("core::slice::iter", "core::slice::iter_mut", "nalgebra::Matrix::iter", "nalgebra::Matrix::iter_mut", "nalgebra::Matrix::column_iter",
                   "nalgebra::Matrix::column_iter_mut", "nalgebra::Matrix::row_iter", "nalgebra::Matrix::row_iter_mut", "std::vec::Vec::iter", "std::vec::Vec::iter_mut",
                   "std::collections::HashMap::iter", "std::collections::HashMap::keys", "std::collections::HashMap::values", "std::vec::Vec::into_iter", "std::vec::Vec::drain")
-FINITE_ADAPTERS = ("enumerate", "zip", "map", "filter", "rev", "skip", "take", "cloned", "copied", "peekable", "into_iter", "chain", "step_by", "by_ref", "filter_map", "flat_map", "inspect")
+FINITE_ADAPTERS = ("enumerate", "zip", "map", "filter", "rev", "skip", "take", "cloned", "copied", "peekable", "into_iter", "chain", "step_by", "by_ref", "filter_map", "flat_map", "inspect", "map_init", "map_with")
 INFINITE = ("repeat", "cycle", "repeat_with", "from_fn", "successors", "RangeFrom", "iterate")
 
 
